@@ -505,7 +505,7 @@ async function op_stream_vs_bulk(req) {
     let runs = 0, cases_done = 0, mismatches = [], traces = 0, bulk_errors = 0, nontrivial = 0;
     for (let c of req.cases) {
         let n = c.bytes_hex.length / 2;
-        let base = {bytes_hex: c.bytes_hex, encoding: c.encoding, delim: c.delim, policy: c.policy, has_header: !!c.has_header, comment_prefix: c.comment_prefix || null, async_delivery: !!c.async_delivery};
+        let base = {bytes_hex: c.bytes_hex, encoding: c.encoding, delim: c.delim, policy: c.policy, has_header: !!c.has_header, comment_prefix: c.comment_prefix || null, async_delivery: !!c.async_delivery, consumer_pause_every: c.consumer_pause_every || 0};
         let bulk = await op_read(Object.assign({chunks: null}, base));
         let bulk_key = observation_key(bulk);
         if (bulk.error) bulk_errors += 1;
